@@ -234,4 +234,5 @@ def replay(rep, wd, payload):
         if got not in (render_blocks(data, k), render_blocks(data, k + 1)):
             rep.violation(payload['key'], p)
     else:
-        print('trace replays are re-run by the full check (seeded): VERIF_SEED=%s' % payload.get('seed'))
+        import sys
+        core.generic_replay(sys.modules[__name__], rep, wd, payload)
